@@ -420,7 +420,10 @@ class _PythonCodeAssist:
 
     def _dotted_completions(self, module_scope, holding_scope):
         result = {}
-        found_pyname = evaluate.eval_str(holding_scope, self.expression)
+        try:
+            found_pyname = evaluate.eval_str(holding_scope, self.expression)
+        except exceptions.BadIdentifierError:
+            return result
         if found_pyname is not None:
             element = found_pyname.get_object()
             compl_scope = "attribute"
